@@ -22,34 +22,27 @@
    answers differ the step is "ambiguous" (counted by predict, never a mismatch by itself).  The model clock always
    stays a lower bound of the real time. *)
 From Coq Require Import ZArith.
-From TX Require Import Base.Val Model.Routing Gen.C09.
+From TX Require Import Base.Val Model.Routing Proofs.SideC09 Gen.C09.
 Open Scope N_scope.
 
-Definition gstr := (waiting + str)%type.
-Definition c_enc (r : waiting) : gstr := inl r.
-Definition c_dec (g : gstr) : option waiting := match g with inl r => Some r | inr _ => None end.
-Definition c_of_addr (a : str) : gstr := inr a.
-Definition c_to_addr (g : gstr) : str := match g with inr a => a | inl _ => [123] end.
-Definition c_keep (_ : cell) (_ : N) : bool := false.
-
+(* the codec instance and the deployment configurations are those of Proofs/SideC09.v (ex_codec: dec (enc r) = Some r) *)
+Definition gstr := ex_gstr.
 Definition mstate := state gstr.
-Definition mstep := step gstr c_enc c_dec c_dec c_of_addr c_to_addr c_keep.
+Definition mstep := ex_step.
 
 Definition eps : N := 5000000.
 Definition two63 : Z := 9223372036854775808%Z.
 Definition vz (v : tval) : Z := (Z.of_N (vn v) - two63)%Z.
 
 Definition cfg_of (kind ttl : N) : cfg :=
-  let route : key -> bool :=
-    match kind with
-    | 2 => hybrid_route true HybridSharedPersistent HybridShared
-    | 4 => hybrid_route false HybridSharedPersistent HybridShared
-    | _ => fun _ => true
-    end in
-  let ident := match kind with
-               | 0 => ShapeIdentMemory | 1 => ShapeIdentRedis | 2 => ShapeIdentHybridShared
-               | 3 => ShapeIdentHybridLocal | _ => true end in
-  mkCfg (new_table_ttl DefaultTTLns ttl) NodeAddressTTLns WaitPrefix NodePrefix NodeSuffix route ident.
+  match kind with
+  | 0 => cfg_direct ttl ShapeIdentMemory
+  | 1 => cfg_direct ttl ShapeIdentRedis
+  | 2 => cfg_hybrid true ttl
+  | 3 => cfg_direct ttl ShapeIdentHybridLocal
+  | 4 => cfg_hybrid false ttl
+  | _ => cfg_direct ttl true
+  end.
 
 (* does the shared backend's clock follow the node clock? *)
 Definition same_clock (kind : N) : bool := match kind with 0 | 3 | 4 => true | _ => false end.
